@@ -8,7 +8,7 @@ include!("img.rs");
 include!("store_common.rs");
 
 //@ harness: c17_index_remove_mirror
-//@ tier: quick
+//@ tier: thorough
 //@ timeout: 3000
 //@ mem: 20
 //@ covers: none
@@ -42,7 +42,7 @@ store_harness!(c17_index_remove_mirror, {
 });
 
 //@ harness: c17_index_deindex_mirror_lmdb
-//@ tier: quick
+//@ tier: thorough
 //@ timeout: 2400
 //@ mem: 16
 //@ covers: any
